@@ -511,6 +511,11 @@ NvmModule *nvm_deserialize(const uint8_t *data, uint32_t size) {
     mod->header = header;
     mod->section_count = header.section_count;
 
+    /* Loading is all-or-nothing: a section that is not consumed exactly, or bytes
+     * after the last section, mean the file is damaged. */
+    bool malformed = false;
+    uint32_t data_end = dir_end;
+
     /* Parse section directory */
     for (uint32_t i = 0; i < header.section_count; i++) {
         uint32_t dir_off = NVM_HEADER_SIZE + i * NVM_SECTION_ENTRY_SIZE;
@@ -522,6 +527,8 @@ NvmModule *nvm_deserialize(const uint8_t *data, uint32_t size) {
             nvm_module_free(mod);
             return NULL;
         }
+
+        if (sec_offset + sec_size > data_end) data_end = sec_offset + sec_size;
 
         mod->sections[i].type   = sec_type;
         mod->sections[i].offset = sec_offset;
@@ -535,10 +542,11 @@ NvmModule *nvm_deserialize(const uint8_t *data, uint32_t size) {
                 while (pos + 4 <= sec_size) {
                     uint32_t slen = le_read_u32(sec_data + pos);
                     pos += 4;
-                    if (slen > sec_size - pos) break;
+                    if (slen > sec_size - pos) { malformed = true; break; }
                     nvm_add_string(mod, (const char *)(sec_data + pos), slen);
                     pos += slen;
                 }
+                if (pos != sec_size) malformed = true;
                 break;
             }
 
@@ -559,6 +567,7 @@ NvmModule *nvm_deserialize(const uint8_t *data, uint32_t size) {
                     fn.upvalue_count = le_read_u16(sec_data + pos);     pos += 2;
                     nvm_add_function(mod, &fn);
                 }
+                if (pos != sec_size) malformed = true;
                 break;
             }
 
@@ -569,6 +578,7 @@ NvmModule *nvm_deserialize(const uint8_t *data, uint32_t size) {
                     uint32_t line   = le_read_u32(sec_data + pos); pos += 4;
                     nvm_add_debug_entry(mod, bc_off, line);
                 }
+                if (pos != sec_size) malformed = true;
                 break;
             }
 
@@ -591,7 +601,7 @@ NvmModule *nvm_deserialize(const uint8_t *data, uint32_t size) {
                     mod->imports[idx].param_count        = le_read_u16(sec_data + pos); pos += 2;
                     mod->imports[idx].return_type        = sec_data[pos++];
 
-                    if (mod->imports[idx].param_count > sec_size - pos) break;
+                    if (mod->imports[idx].param_count > sec_size - pos) { malformed = true; break; }
 
                     if (mod->imports[idx].param_count > 0) {
                         mod->import_param_types[idx] = malloc(mod->imports[idx].param_count);
@@ -605,6 +615,7 @@ NvmModule *nvm_deserialize(const uint8_t *data, uint32_t size) {
                     pos += mod->imports[idx].param_count;
                     mod->import_count++;
                 }
+                if (pos != sec_size) malformed = true;
                 break;
             }
 
@@ -612,6 +623,11 @@ NvmModule *nvm_deserialize(const uint8_t *data, uint32_t size) {
                 /* Unknown section type - skip */
                 break;
         }
+    }
+
+    if (malformed || data_end != size) {
+        nvm_module_free(mod);
+        return NULL;
     }
 
     return mod;
